@@ -511,6 +511,7 @@ class Generic(Type):
         return (
             isinstance(o, Generic)
             and o.name == self.name
+            and len(self.types) == len(o.types)
             and all(x == y for x, y in zip(self.types, o.types))
         )
 
